@@ -301,6 +301,11 @@ type SymConfig struct {
 	// Region: if non-nil, leaving it ends the path with End="exit".
 	Region   map[*ssa.BasicBlock]bool
 	MaxPaths int
+	// Inline > 0: in terms, a static call to a single-block function of the same package is replaced by the term of its
+	// result with the parameters replaced by the argument terms (to that depth).  NoInline excludes callees (constructors
+	// whose call is the thing to look at).
+	Inline   int
+	NoInline map[*ssa.Function]bool
 }
 
 type symPath struct {
@@ -750,6 +755,27 @@ func (s *symPath) term(v ssa.Value) string {
 				as = append(as, s.term(a))
 			}
 			return b.Name() + "(" + strings.Join(as, ",") + ")"
+		}
+		if s.cfg.Inline > 0 && !cc.IsInvoke() {
+			if callee := StaticFn(cc); callee != nil && callee.Blocks != nil && len(callee.Blocks) == 1 && callee.Pkg == s.cfg.Fn.Pkg && !s.cfg.NoInline[callee] && callee != s.cfg.Fn {
+				if rt, ok := callee.Blocks[0].Instrs[len(callee.Blocks[0].Instrs)-1].(*ssa.Return); ok && len(rt.Results) == 1 {
+					argTerms := make([]string, len(cc.Args))
+					for i, a := range cc.Args {
+						argTerms[i] = s.term(a)
+					}
+					sub := &symPath{cfg: &SymConfig{Fn: callee, Inline: s.cfg.Inline - 1, NoInline: s.cfg.NoInline, Root: func(v ssa.Value) (string, bool) {
+						if prm, ok := v.(*ssa.Parameter); ok {
+							for i, cp := range callee.Params {
+								if cp == prm && i < len(argTerms) {
+									return argTerms[i], true
+								}
+							}
+						}
+						return "", false
+					}}}
+					return sub.term(rt.Results[0])
+				}
+			}
 		}
 		name := "?"
 		if c := CommonCallee(cc); c != nil {
